@@ -138,7 +138,11 @@ def make_u(spec, log):
     if spec.get("throw"):
         bases.insert(0, _ThrowMixin)
     cls = type("ObjU", tuple(bases), {})
-    return cls(spec["script"], log, spec.get("susp", 0), spec.get("close_susp", 0))
+    obj = cls(spec["script"], log, spec.get("susp", 0), spec.get("close_susp", 0))
+    if len(spec["script"]) % 2 == 1:
+        from world import AObjProxy
+        obj = AObjProxy(obj)     # aclose / asend / athrow are offered only dynamically (transparent proxy)
+    return obj
 
 
 def u_dead(spec, u):
